@@ -188,13 +188,17 @@ def setup():
     # vector gate of all reference models
     ok = True
     refdir = os.path.join(VERIF, 'ref')
-    for m in sorted(os.listdir(refdir)) if os.path.isdir(refdir) else []:
-        if m.endswith('.py') and 'selftest' in open(os.path.join(refdir, m)).read():
-            r = subprocess.run([sys.executable, os.path.join(refdir, m), '--selftest'], stdout=subprocess.PIPE,
-                               stderr=subprocess.STDOUT, text=True)
-            last = r.stdout.strip().splitlines()[-1] if r.stdout.strip() else ''
-            print('ref gate %-12s %s %s' % (m, 'ok' if r.returncode == 0 else 'FAILED', last))
-            ok &= r.returncode == 0
+    mods = [m for m in (sorted(os.listdir(refdir)) if os.path.isdir(refdir) else [])
+            if m.endswith('.py') and not m.startswith('x') and 'def selftest(' in open(os.path.join(refdir, m)).read()]
+    def gate(m):
+        r = subprocess.run([sys.executable, os.path.join(refdir, m), '--selftest'], stdout=subprocess.PIPE,
+                           stderr=subprocess.STDOUT, text=True)
+        last = r.stdout.strip().splitlines()[-1] if r.stdout.strip() else ''
+        return m, r.returncode, last
+    with ThreadPoolExecutor(16) as ex:
+        for m, rc, last in ex.map(gate, mods):
+            print('ref gate %-12s %s %s' % (m, 'ok' if rc == 0 else 'FAILED', last[:200]))
+            ok &= rc == 0
     return 0 if ok else 1
 
 if __name__ == '__main__':
